@@ -305,10 +305,18 @@ def profile_diff(binname, items, base_out, profiles=("release",), args=()):
 
 
 HANG_RC = -997
-PROBE_TIMEOUT = int(os.environ.get("VERIF_PROBE_TIMEOUT", "90"))
+PROBE_TIMEOUT = int(os.environ.get("VERIF_PROBE_TIMEOUT", "45"))
+# upper bound for one harness process over its share of the cases; check.py lowers it for quick-depth runs (a quick
+# shard takes seconds, and a change that makes the implementation loop for ever must not stall the check for hours)
+DEFAULT_RUN_TIMEOUT = int(os.environ.get("VERIF_RUN_TIMEOUT", "1200"))
 
 
-def run_bin(path, lines, timeout=1200, args=()):
+def _to(timeout):
+    return DEFAULT_RUN_TIMEOUT if timeout is None else timeout
+
+
+def run_bin(path, lines, timeout=None, args=()):
+    timeout = _to(timeout)
     """Feed one case per line, get one observation line per case."""
     inp = "\n".join(lines) + "\n"
     try:
@@ -329,6 +337,7 @@ def run_bin(path, lines, timeout=1200, args=()):
 
 
 def _first_crash(path, lines, timeout, args):
+    timeout = _to(timeout)
     """index of the first line whose (isolated-prefix) run makes the binary die, by bisection"""
     lo, hi = 0, len(lines)  # invariant: lines[:lo] runs fine, lines[:hi] crashes
     while hi - lo > 1:
@@ -341,9 +350,10 @@ def _first_crash(path, lines, timeout, args):
     return hi - 1
 
 
-def run_bin_robust(path, lines, timeout=1200, args=()):
+def run_bin_robust(path, lines, timeout=None, args=()):
     """run_bin, but a process death (abort, signal, UB trap) on some case does not lose the other
     cases: the crashing case gets the observation line `HARNESS-PANIC -<rc>` and the run continues."""
+    timeout = _to(timeout)
     out_all, rest, base = [], list(lines), 0
     crashes = 0
     while rest:
@@ -366,7 +376,7 @@ def run_bin_robust(path, lines, timeout=1200, args=()):
     return 0, out_all, ""
 
 
-def run_bin_parallel(path, lines, shards=NCPU, timeout=1200, args=()):
+def run_bin_parallel(path, lines, shards=NCPU, timeout=None, args=()):
     if len(lines) < 64:
         return run_bin_robust(path, lines, timeout, args)
     k = min(shards, len(lines))
